@@ -39,7 +39,7 @@ _reg('C03', [pairs.rule_c03_r1, pairs.rule_c03_r2, pairs.rule_c03_r3, extra.rule
      "induction over converter trees (sub-converters are assumed to agree). It does NOT decide full logical equivalence "
      "of the two passes (atom sets and polarity are compared, not the and/or structure), nor user-written converters.")
 
-_reg('C04', [escape.rule_c04_r1, escape.rule_c04_r2, escape.rule_c04_r3, escape.rule_c04_r4, pairs.rule_c03_r1],
+_reg('C04', [escape.rule_c04_r1, escape.rule_c04_r2, escape.rule_c04_r3, escape.rule_c04_r4, pairs.rule_c03_r1, dispatch.rule_c01_r1],
      "Decides the structural clause of C04 by an exception-escape analysis: every may-raise source in the conversion zone "
      "(opaque user callables and stdlib parsers, data-keyed table lookups incl. unhashable keys, hashed stores with computed keys, "
      "explicit raises) is covered by a handler that turns it into ParseInterrupt / an error node, at the source or at every call site of "
@@ -47,7 +47,7 @@ _reg('C04', [escape.rule_c04_r1, escape.rule_c04_r2, escape.rule_c04_r3, escape.
      "Not decided: exceptions raised by == / __str__ of exotic values, RecursionError / MemoryError, errors of the JSON / YAML parsers.")
 
 _reg('C02', [gates.rule_c02_r1, gates.rule_c02_r2, gates.rule_c02_r3, gates.rule_c02_r4, dispatch.rule_c01_r1, purity.rule_c01_r2,
-             classes_rules.rule_c15_r4, extra.rule_no_swallowed_rejection],
+             classes_rules.rule_c15_r4, extra.rule_no_swallowed_rejection, extra.rule_whole_value_delegation, gates.rule_c02_r6],
      "Decides the structural clauses of C02: (R1) the sequence / iterable kind predicates exclude str, bytes and bytearray and the "
      "mapping predicate accepts mappings only; (R2) in both passes of every Converter class each structural use of the raw input "
      "(iteration, zip, enumerate, len, indexing, .items()) is dominated in the CFG by the passing branch of such a gate, across helper "
